@@ -2884,7 +2884,7 @@ Proof.
     split; [exact I'|]. split; [congruence|]. split; [congruence|]. split; [rewrite Ln; exact G1|]. split; [rewrite Cp; exact G2|].
     split; [rewrite <- Edims; exact Dok|].
     assert (Lf : lenZ (firstn (Z.to_nat (eb - sb)) data) = eb - sb) by (apply lenZ_firstn_ge; lia).
-    intros x v E. unfold i_total. cbn [i_ty i_dims]. fold (i_total I). rewrite <- Et. fold t.
+    intros x v E. unfold i_total. cbn [i_ty i_dims]. rewrite <- ?Edims. change (fb * prodZ (h_dims (s_h s))) with t.
     assert (Rg : 0 <= x < t).
     { unfold over in E. rewrite Lf in E. destruct (Z.leb_spec sb x), (Z.ltb_spec x (sb + (eb - sb))); cbn [andb] in E; try lia;
       destruct (B x v E) as [Rg _]; rewrite <- Et in Rg; fold t in Rg; lia. }
@@ -2933,8 +2933,9 @@ Proof.
   split.
   - exists cs'. cbn [s_h s_d i_ty i_dims i_n i_cap i_b].
     split; [exact I'|]. split; [congruence|]. split; [congruence|]. split; [rewrite Ln; rewrite <- Et; exact G1|]. split; [rewrite Cp; rewrite <- Et; exact G2|].
-    split; [rewrite <- Edims; exact Dok|].
-    intros x v E. unfold i_total. cbn [i_ty i_dims]. fold (i_total I). rewrite <- Et. fold t. rewrite <- Et in E. fold t in E.
+    split; [first [exact Dok|rewrite <- Edims; exact Dok]|].
+    intros x v E. unfold i_total. cbn [i_ty i_dims]. rewrite <- ?Edims. change (fb * prodZ (h_dims (s_h s))) with t.
+    rewrite <- ?Et in E. fold t in E.
     set (z := if i_n I =? 0 then over (i_b I) 0 (zeros t) else if t >? i_cap I then over (i_b I) (i_cap I) (zeros (t - i_cap I)) else i_b I) in *.
     assert (Zr : forall w, z x = Some w -> 0 <= x < t).
     { intros w. unfold z. rewrite <- En, <- Ecap.
@@ -2944,7 +2945,7 @@ Proof.
       destruct (B x w Ew) as [Rg _]; rewrite <- Et in Rg; fold t in Rg; lia. }
     assert (Rg : 0 <= x < t).
     { eapply (over_elems_range ps z fb data x v 0 t Z0); [|exact Zr|exact E].
-      eapply Forall_impl; [|exact Rng]. intros p Hp. cbn beta in Hp. rewrite total_bytes_unfold in Tb. fold fb in Tb. unfold t. rewrite total_bytes_unfold. fold fb. nia. }
+      eapply Forall_impl; [|exact Rng]. intros p Hp. cbn beta in Hp. assert (Et2 : t = fb * prodZ (h_dims (s_h s))) by reflexivity. nia. }
     split; [exact Rg|]. rewrite Rd by lia. eapply over_elems_mono; [|exact E].
     intros w. unfold z. rewrite <- En, <- Ecap.
     destruct (Z.eqb_spec (lenZ cs) 0) as [L0|L0]; cbn [orb].
@@ -2956,3 +2957,267 @@ Proof.
   - intros ps' _ _ _ _. split; [reflexivity|]. cbn [i_cap]. rewrite <- Et. fold t. rewrite <- G2.
     destruct (Z.eqb_spec (lenZ cs) 0); [lia|]. destruct (Z.gtb_spec t (cap_of cs)); lia.
 Qed.
+
+(* ------------------------------------------------------------------ histories *)
+Lemma step_refines I s o al : refines I s -> safe_step cf fa s o = true -> alloc_ok fa s o al = true ->
+  buf_ok (s_h s) o = true -> refines (istep I o) (snd (step cf fa s o al)).
+Proof.
+  intros R Sf AO Bf. destruct o.
+  - apply step_putdims; auto.
+  - apply step_writeall; auto.
+  - apply step_writeblock; auto.
+  - apply step_writestrided; auto.
+  - cbn [step istep]. destruct (read_all fa (s_h s) (s_d s)); cbn [snd]; exact R.
+  - cbn [step istep]. destruct (read_block cf fa (s_h s) (s_d s) b_start b_end); cbn [snd]; exact R.
+  - cbn [step istep]. destruct (read_strided fa (s_h s) (s_d s) sel); cbn [snd]; exact R.
+Qed.
+
+Lemma good_hist_cons s o al r : good_hist cf fa s ((o, al) :: r) = true ->
+  safe_step cf fa s o = true /\ alloc_ok fa s o al = true /\ buf_ok (s_h s) o = true /\ good_hist cf fa (snd (step cf fa s o al)) r = true.
+Proof.
+  cbn [good_hist]. intros H. repeat (apply andb_true_iff in H; destruct H as [H ?]). auto.
+Qed.
+
+Lemma run_refines : forall hist I s, refines I s -> good_hist cf fa s hist = true ->
+  refines (irun I (map fst hist)) (run cf fa s hist).
+Proof.
+  induction hist as [|[o al] r IH]; intros I s R G; [exact R|].
+  apply good_hist_cons in G. destruct G as (Sf & AO & Bf & G). cbn [map fst irun run]. apply IH; auto.
+  apply step_refines; auto.
+Qed.
+
+Lemma run_app s h1 h2 : run cf fa s (h1 ++ h2) = run cf fa (run cf fa s h1) h2.
+Proof. revert s. induction h1 as [|[o al] r IH]; intros s; cbn [app run]; auto. Qed.
+Lemma good_hist_app s h1 h2 : good_hist cf fa s (h1 ++ h2) = true ->
+  good_hist cf fa s h1 = true /\ good_hist cf fa (run cf fa s h1) h2 = true.
+Proof.
+  revert s. induction h1 as [|[o al] r IH]; intros s G; cbn [app run good_hist] in *; [auto|].
+  repeat (apply andb_true_iff in G; destruct G as [G ?]). destruct (IH _ H) as [A B]. rewrite G, H0, H1, H2, A. auto.
+Qed.
+
+(* ------------------------------------------------------------------ what the readers answer *)
+Lemma agrees_map (f g : Z -> option Z) xs : (forall x v, In x xs -> f x = Some v -> g x = Some v) ->
+  agrees (map f xs) (map g xs) = true.
+Proof.
+  induction xs as [|x r IH]; intros H; [reflexivity|]. cbn [map agrees]. rewrite IH by (intros; eapply H; eauto; right; auto).
+  destruct (f x) as [v|] eqn:E; [|reflexivity]. rewrite (H x v (or_introl eq_refl) E). now rewrite Z.eqb_refl.
+Qed.
+Lemma agrees_app a1 a2 b1 b2 : agrees a1 b1 = true -> agrees a2 b2 = true -> agrees (a1 ++ a2) (b1 ++ b2) = true.
+Proof.
+  revert b1. induction a1 as [|x r IH]; intros [|y s] H1 H2; cbn [app agrees] in *; try discriminate; auto.
+  apply andb_true_iff in H1. destruct H1 as [A B]. rewrite A. cbn [andb]. apply IH; auto.
+Qed.
+Lemma zr_in n : forall a x, In x (zr a n) -> a <= x < a + Z.of_nat n.
+Proof. induction n as [|n IH]; intros a x H; [destruct H|]. destruct H as [<-|H]; [lia|]. apply IH in H. lia. Qed.
+
+Lemma refines_ready I s cs : i_ready I = true -> Inv (s_h s) (s_d s) cs -> h_ty (s_h s) = i_ty I -> h_dims (s_h s) = i_dims I ->
+  lenZ cs = i_n I -> cap_of cs = i_cap I -> dims_ok (i_dims I) = true -> ready (s_h s) cs.
+Proof.
+  intros Rd I1 Ety Edims En Ecap Dok. unfold i_ready in Rd. apply andb_true_iff in Rd. destruct Rd as [Rd R4]. apply andb3 in Rd. destruct Rd as (R1 & R2 & R3).
+  pose proof (total_eq I s Ety Edims) as Et.
+  destruct (Z.leb_spec 1 (i_n I)); [|discriminate]. destruct (Z.leb_spec (i_total I) (i_cap I)); [|discriminate].
+  destruct (Z.eqb_spec (esz (i_ty I)) 0); [discriminate|]. destruct (Z.eqb_spec (lenZ (i_dims I)) 0); [discriminate|].
+  split; [intros ->; cbn in En; lia|]. split; [|congruence]. rewrite Et, Ecap. split; [|lia].
+  unfold i_total. unfold dims_ok in Dok. apply andb3 in Dok. destruct Dok as (_ & D2 & _). pose proof (prodZ_dims_pos _ D2).
+  assert (0 <= esz (i_ty I)) by (destruct (i_ty I); cbn; lia). nia.
+Qed.
+
+Lemma reads_answer I s o exp : refines I s -> iread I o = Some exp ->
+  exists l, step cf fa s o [] = (Ok (ABytes l), s) /\ agrees exp l = true.
+Proof.
+  intros (cs & I1 & Ety & Edims & En & Ecap & Dok & B) E. unfold iread in E.
+  destruct (i_ready I) eqn:Rd; [|discriminate]. cbn [negb] in E.
+  pose proof (refines_ready I s cs Rd I1 Ety Edims En Ecap Dok) as Rdy. pose proof (total_eq I s Ety Edims) as Et.
+  assert (Mono : forall x v, i_b I x = Some v -> absb (s_d s) cs x = Some v) by (intros x v Ex; apply (B x v Ex)).
+  destruct o; try discriminate.
+  - inversion E; subst exp. cbn [step]. rewrite (read_all_ok (s_h s) (s_d s) cs I1 Rdy). eexists. split; [reflexivity|].
+    rewrite Et. unfold lread. apply agrees_map. auto.
+  - destruct (block_valid I b_start b_end) eqn:Bv; [|discriminate]. inversion E; subst exp. unfold block_valid in Bv.
+    apply andb_true_iff in Bv. destruct Bv as [Bv V4]. apply andb3 in Bv. destruct Bv as (V1 & V2 & V3).
+    rewrite <- Ety, <- Et in *.
+    destruct (Z.leb_spec 0 (esz (h_ty (s_h s)) * (b_start - 1))); [|discriminate].
+    destruct (Z.ltb_spec (esz (h_ty (s_h s)) * (b_start - 1)) (esz (h_ty (s_h s)) * b_end)); [|discriminate].
+    destruct (Z.leb_spec (esz (h_ty (s_h s)) * b_end) (total_bytes (s_h s))); [|discriminate].
+    cbn [step]. rewrite (read_block_ok (s_h s) (s_d s) cs b_start b_end I1 Rdy) by lia. eexists. split; [reflexivity|].
+    unfold lread. apply agrees_map. auto.
+  - rewrite (sel_positions_dims (i_hdr I) (s_h s) sel) in E by (cbn [i_hdr h_dims]; congruence).
+    destruct (sel_positions (s_h s) sel) as [ps| | | | | | | | |] eqn:SP; try discriminate. inversion E; subst exp.
+    rewrite <- Edims in Dok. cbn [step]. rewrite (read_strided_ok (s_h s) (s_d s) cs sel ps I1 Rdy Dok SP). eexists. split; [reflexivity|].
+    rewrite <- Ety. clear -Mono. induction ps as [|p r IH]; [reflexivity|]. cbn [flat_map]. apply agrees_app; [|exact IH].
+    unfold lread. apply agrees_map. auto.
+Qed.
+
+(* ------------------------------------------------------------------ a valid write is accepted and leaves room for all the bytes *)
+Lemma write_accepted I s o al : refines I s -> safe_step cf fa s o = true -> alloc_ok fa s o al = true ->
+  buf_ok (s_h s) o = true -> accepts I o = true ->
+  fst (step cf fa s o al) = Ok AUnit /\
+  exists cs, Inv (s_h (snd (step cf fa s o al))) (s_d (snd (step cf fa s o al))) cs /\
+             total_bytes (s_h (snd (step cf fa s o al))) <= cap_of cs.
+Proof.
+  intros R Sf AO Bf Ac.
+  assert (Fin : refines (istep I o) (snd (step cf fa s o al)) -> i_total (istep I o) <= i_cap (istep I o) ->
+                exists cs, Inv (s_h (snd (step cf fa s o al))) (s_d (snd (step cf fa s o al))) cs /\
+                           total_bytes (s_h (snd (step cf fa s o al))) <= cap_of cs).
+  { intros (cs & I1 & Ety & Edims & En & Ecap & _) Le. exists cs. split; [exact I1|].
+    rewrite (total_eq _ _ Ety Edims), Ecap. exact Le. }
+  destruct o; try discriminate; cbn [accepts] in Ac.
+  - destruct (step_writeall I s data al R Sf AO Bf) as [R' V]. destruct (Z.eqb_spec (i_total I) 0); [discriminate|].
+    destruct (V ltac:(auto)) as [Ok' Le]. split; [exact Ok'|]. apply Fin; [exact R'|].
+    cbn [istep] in *. destruct (Z.eqb_spec (i_total I) 0); [lia|]. exact Le.
+  - destruct (step_writeblock I s b_start b_end data al R Sf AO Bf) as [R' V].
+    destruct (V Ac) as [Ok' Le]. split; [exact Ok'|]. apply Fin; [exact R'|].
+    cbn [istep] in *. rewrite Ac in *. cbn [negb] in *. exact Le.
+  - destruct (step_writestrided I s sel data al R Sf AO) as [R' V].
+    apply andb3 in Ac. destruct Ac as (A1 & A2 & A3).
+    destruct (Z.eqb_spec (esz (i_ty I)) 0); [discriminate|]. destruct (Z.eqb_spec (lenZ (i_dims I)) 0); [discriminate|].
+    destruct (sel_positions (i_hdr I) sel) as [ps| | | | | | | | |] eqn:SP; try discriminate.
+    destruct (Z.eqb_spec (lenZ data) (lenZ ps * esz (i_ty I))); [|discriminate].
+    destruct (V ps ltac:(auto) ltac:(auto) eq_refl ltac:(auto)) as [Ok' Le]. split; [exact Ok'|]. apply Fin; [exact R'|].
+    cbn [istep] in *. destruct (Z.eqb_spec (esz (i_ty I)) 0); [lia|]. destruct (Z.eqb_spec (lenZ (i_dims I)) 0); [lia|]. cbn [orb] in *.
+    rewrite SP in *. destruct (Z.eqb_spec (lenZ data) (lenZ ps * esz (i_ty I))); [|lia]. cbn [negb] in *. exact Le.
+Qed.
+
+(* ------------------------------------------------------------------ the lookup loop never runs past the table *)
+Lemma lookup_total cs lk rel : sizes_pos cs -> lk_ok cs lk -> l_past lk <= rel < cap_of cs ->
+  exists lk', lookup (l_rest lk) (l_cur lk) (l_past lk) (l_size lk) rel = Ok lk' /\ lk_ok cs lk' /\
+    l_past lk' <= rel < l_past lk' + l_size lk' /\
+    phys cs rel = Some (cstart (l_cur lk') + HDR + (rel - l_past lk')).
+Proof.
+  intros P (pre & E & Ep & Es) H. rewrite Ep, Es.
+  destruct (lookup_ok cs P (l_rest lk) (l_cur lk) pre rel E ltac:(lia)) as (lk' & R & L' & B').
+  exists lk'. split; [exact R|]. split; [exact L'|]. split; [exact B'|].
+  destruct L' as (pre' & E' & Ep' & Es'). rewrite E' at 1. rewrite Ep'. apply phys_app.
+  - unfold sizes_pos in *. rewrite E' in P. apply Forall_app in P. tauto.
+  - lia.
+Qed.
+
+End Proofs.
+
+(* ================================================================== the theorems about the code as it is (Cur) *)
+Lemma fa_native_good : fa_good fa_native.
+Proof. split; [reflexivity|left; reflexivity]. Qed.
+
+(* every history: the store refines the plain byte array, and every read answers from it *)
+Theorem chunks_read_after_write : forall fa hist, fa_good fa -> good_hist Cur fa st0 hist = true ->
+  refines fa (irun i0 (map fst hist)) (run Cur fa st0 hist) /\
+  (forall o exp, iread (irun i0 (map fst hist)) o = Some exp ->
+     exists l, step Cur fa (run Cur fa st0 hist) o [] = (Ok (ABytes l), run Cur fa st0 hist) /\ agrees exp l = true).
+Proof.
+  intros fa hist G H.
+  assert (R : refines fa (irun i0 (map fst hist)) (run Cur fa st0 hist)).
+  { apply (run_refines Cur fa G eq_refl eq_refl eq_refl eq_refl hist i0 st0 (refines_init fa) H). }
+  split; [exact R|]. intros o exp E. apply (reads_answer Cur fa G _ _ o exp R E).
+Qed.
+
+(* the invariant holds after every history; a write the specification accepts is accepted and leaves capacity for all
+   the node's bytes *)
+Theorem chunks_invariant : forall fa hist, fa_good fa -> good_hist Cur fa st0 hist = true ->
+  (exists cs, Inv fa (s_h (run Cur fa st0 hist)) (s_d (run Cur fa st0 hist)) cs) /\
+  (forall o al, good_hist Cur fa st0 (hist ++ [(o, al)]) = true -> accepts (irun i0 (map fst hist)) o = true ->
+     fst (step Cur fa (run Cur fa st0 hist) o al) = Ok AUnit /\
+     exists cs, Inv fa (s_h (run Cur fa st0 (hist ++ [(o, al)]))) (s_d (run Cur fa st0 (hist ++ [(o, al)]))) cs /\
+                total_bytes (s_h (run Cur fa st0 (hist ++ [(o, al)]))) <= cap_of cs).
+Proof.
+  intros fa hist G H.
+  pose proof (run_refines Cur fa G eq_refl eq_refl eq_refl eq_refl hist i0 st0 (refines_init fa) H) as R.
+  split; [destruct R as (cs & I1 & _); exists cs; exact I1|].
+  intros o al H2 Ac. apply good_hist_app in H2. destruct H2 as [_ H2]. apply good_hist_cons in H2. destruct H2 as (Sf & AO & Bf & _).
+  rewrite run_app. cbn [run].
+  apply (write_accepted Cur fa G eq_refl eq_refl eq_refl eq_refl _ _ o al R Sf AO Bf Ac).
+Qed.
+
+(* the strided writer's / reader's lookup: total, and it designates THE chunk and offset holding the byte *)
+Theorem chunk_lookup_total : forall cs lk rel, sizes_pos cs -> lk_ok cs lk -> l_past lk <= rel < cap_of cs ->
+  exists lk', lookup (l_rest lk) (l_cur lk) (l_past lk) (l_size lk) rel = Ok lk' /\ lk_ok cs lk' /\
+    l_past lk' <= rel < l_past lk' + l_size lk' /\
+    phys cs rel = Some (cstart (l_cur lk') + HDR + (rel - l_past lk')).
+Proof. exact lookup_total. Qed.
+
+(* INCOMPLETE_DATA is unreachable: after any good history, a strided read of a node that was written after it last grew
+   succeeds for every valid selection *)
+Theorem strided_read_never_incomplete : forall fa hist sel, fa_good fa -> good_hist Cur fa st0 hist = true ->
+  i_ready (irun i0 (map fst hist)) = true ->
+  (exists ps, sel_positions (i_hdr (irun i0 (map fst hist))) sel = Ok ps) ->
+  exists l, step Cur fa (run Cur fa st0 hist) (ReadStrided sel) [] = (Ok (ABytes l), run Cur fa st0 hist).
+Proof.
+  intros fa hist sel G H Rd (ps & SP). destruct (chunks_read_after_write fa hist G H) as [_ A].
+  destruct (A (ReadStrided sel) (flat_map (fun p => map (i_b (irun i0 (map fst hist))) (zrange (p * esz (i_ty (irun i0 (map fst hist)))) (esz (i_ty (irun i0 (map fst hist)))))) ps)) as (l & E & _).
+  - unfold iread. rewrite Rd, SP. reflexivity.
+  - exists l. exact E.
+Qed.
+
+(* ================================================================== historical witnesses, evaluated by the kernel *)
+Definition bseq (n k : nat) : bytes := map (fun i => Z.of_nat ((i + k) mod 251)) (seq 0 n).
+Definition runv (c : cfg) := run c fa_native st0.
+Definition res_of (c : cfg) (h : list (op * list ptr)) (o : op) (al : list ptr) : out ans := fst (step c fa_native (runv c h) o al).
+
+(* d6f9e64: 1024 x I4 written, grown to 1536 and block-written across the chunk boundary, shrunk to 9, strided write of
+   element 9 *)
+Definition wit_shrink : list (op * list ptr) :=
+  [(PutDims I4 [1024], []); (WriteAll (bseq 4096 1), [(1, 0)]); (PutDims I4 [1536], []);
+   (WriteBlock 1000 1100 (bseq 404 7), [(3, 100); (5, 0)]); (PutDims I4 [9], [])].
+Definition wit_shrink_op : op := WriteStrided [(9, 9, 1)] [77; 0; 0; 0].
+
+Lemma shrink_old_refuted :
+  good_hist Cur fa_native st0 (wit_shrink ++ [(wit_shrink_op, [])]) = true /\
+  res_of Before_d6f9e64 wit_shrink wit_shrink_op [] = Err E_FWRITE /\
+  res_of Cur wit_shrink wit_shrink_op [] = Ok AUnit /\
+  res_of Cur (wit_shrink ++ [(wit_shrink_op, [])]) (ReadStrided [(9, 9, 1)]) [] = Ok (ABytes [Some 77; Some 0; Some 0; Some 0]).
+Proof. vm_compute. repeat split; reflexivity. Qed.
+
+(* b21b08d: two chunks 400 + 800 bytes; rewritten as 150 elements; grown back; every element rewritten by a strided
+   write; read_all *)
+Definition wit_wall : list (op * list ptr) :=
+  [(PutDims I4 [100], []); (WriteAll (bseq 400 1), [(1, 0)]); (PutDims I4 [300], []);
+   (WriteAll (bseq 1200 2), [(2, 0); (3, 0)]); (PutDims I4 [150], []); (WriteAll (bseq 600 3), []);
+   (PutDims I4 [300], []); (WriteStrided [(1, 300, 1)] (bseq 1200 4), [])].
+
+Lemma wall_old_refuted :
+  good_hist Cur fa_native st0 wit_wall = true /\
+  res_of Before_b21b08d wit_wall ReadAll [] = Err E_TAG /\
+  res_of Cur wit_wall ReadAll [] = Ok (ABytes (map Some (bseq 1200 4))).
+Proof. vm_compute. repeat split; reflexivity. Qed.
+
+(* 3f8f7e0: chunks 400 + 400 bytes, grown to 600 elements, block 301..350 written *)
+Definition wit_wblk : list (op * list ptr) :=
+  [(PutDims I4 [100], []); (WriteAll (bseq 400 1), [(1, 0)]); (PutDims I4 [200], []);
+   (WriteAll (bseq 800 2), [(2, 0); (3, 0)]); (PutDims I4 [600], []);
+   (WriteBlock 301 350 (bseq 200 5), [(4, 0); (5, 0)])].
+
+Lemma wblock_old_refuted :
+  good_hist Cur fa_native st0 wit_wblk = true /\
+  res_of Before_3f8f7e0 wit_wblk (ReadBlock 301 350) [] = Ok (ABytes (repeat None 200)) /\
+  res_of Before_3f8f7e0 wit_wblk (ReadBlock 201 250) [] = Ok (ABytes (map Some (bseq 200 5))) /\
+  res_of Cur wit_wblk (ReadBlock 301 350) [] = Ok (ABytes (map Some (bseq 200 5))).
+Proof. vm_compute. repeat split; reflexivity. Qed.
+
+(* 5177c7b: a chunk of 5000 data bytes whose data area starts on a block boundary, zero-filled by the strided writer *)
+Definition wit_zero_op : op := WriteStrided [(7, 7, 1)] [65].
+Lemma zero_old_refuted :
+  good_hist Cur fa_native st0 [(PutDims C1 [5000], []); (wit_zero_op, [(1, 4080)])] = true /\
+  res_of Before_5177c7b [(PutDims C1 [5000], [])] wit_zero_op [(1, 4080)] = OOBR 9 /\
+  res_of Cur [(PutDims C1 [5000], [])] wit_zero_op [(1, 4080)] = Ok AUnit /\
+  res_of Cur [(PutDims C1 [5000], []); (wit_zero_op, [(1, 4080)])] (ReadStrided [(4990, 4999, 1)]) [] = Ok (ABytes (repeat (Some 0) 10)) /\
+  (* before the repair, with the data elsewhere in the block: the far end of the chunk is not zeroed *)
+  res_of Before_5177c7b [(PutDims C1 [5000], []); (wit_zero_op, [(1, 0)])] (ReadStrided [(4990, 4999, 1)]) [] = Ok (ABytes (repeat None 10)).
+Proof. vm_compute. repeat split; reflexivity. Qed.
+
+(* 5c54229: two chunks of 16 bytes, re-dimensioned to 88 bytes and not rewritten: read_block of the last element *)
+Definition wit_rblk : list (op * list ptr) :=
+  [(PutDims I8 [2], []); (WriteAll (bseq 16 1), [(1, 0)]); (PutDims I8 [4], []);
+   (WriteBlock 4 4 (bseq 8 2), [(2, 0); (3, 0)]); (PutDims I8 [11], [])].
+Lemma rblock_old_refuted :
+  good_hist Cur fa_native st0 wit_rblk = true /\
+  res_of Before_5c54229 wit_rblk (ReadBlock 11 11) [] = OOBW 7 /\
+  res_of Cur wit_rblk (ReadBlock 11 11) [] = Err E_INCOMPLETE.
+Proof. vm_compute. repeat split; reflexivity. Qed.
+
+(* non-vacuity: a history that reaches three chunks, shrinks below the first one and grows again *)
+Definition ex_hist : list (op * list ptr) :=
+  [(PutDims I4 [10], []); (WriteAll (bseq 40 1), [(1, 0)]); (PutDims I4 [30], []);
+   (WriteBlock 8 25 (bseq 72 2), [(1, 100); (1, 300)]); (PutDims I4 [50], []);
+   (WriteStrided [(11, 50, 3)] (bseq 56 3), [(2, 0); (2, 500)]); (PutDims I4 [4], []);
+   (WriteStrided [(1, 4, 1)] (bseq 16 4), []); (PutDims I4 [50], []); (WriteAll (bseq 200 5), [])].
+Lemma ex_hist_good :
+  good_hist Cur fa_native st0 ex_hist = true /\ i_ready (irun i0 (map fst ex_hist)) = true /\ i_n (irun i0 (map fst ex_hist)) = 3.
+Proof. vm_compute. repeat split; reflexivity. Qed.
